@@ -272,6 +272,15 @@ def gen_history(seed, wl, cfg=None):
             'rollover': rng.random() < 0.25,
             'clock_start': 730000 + rng.randrange(15000),
             'filelayer': True, 'clock': True, 'probe': True}
+    if rng.random() < 0.5:
+        # the process environment is not input: HOME with decoy configuration
+        # files, time zone, locale, made-up PROPKA_* variables
+        mode['env'] = {'home_decoys': True,
+                       'TZ': rng.choice(['UTC', 'Pacific/Kiritimati', 'America/Anchorage', 'Asia/Kolkata']),
+                       'LC_ALL': rng.choice(['C.UTF-8', 'POSIX', 'C']),
+                       'PROPKA_PARAMETERS': '/nonexistent/propka.cfg',
+                       'PROPKA_CFG': 'decoy', 'PROPKA_OPTIONS': '-d -k',
+                       'COLUMNS': rng.choice(['40', '200'])}
     if arm == 'native' and rng.random() < 0.35:
         mode['malloc'] = True      # PYTHONMALLOC=malloc: another real allocator, other address patterns
     if arm == 'bare':
